@@ -725,7 +725,7 @@ func TestC15(t *testing.T) {
 			}
 		}
 	}
-	c.rapidStage("sequences", pick(3000, 300000), func(rt *rapid.T) {
+	c.rapidStage("sequences", pick(16000, 300000), func(rt *rapid.T) {
 		ver := rapid.SampledFrom([]int{2, 3}).Draw(rt, "version")
 		var cs opsCase
 		var cl []string
